@@ -13,7 +13,7 @@
 (* has to agree on all of them.                                            *)
 (***************************************************************************)
 EXTENDS TabularRender, Json, CSV
-CONSTANTS Content, Creators, WrapKinds, MaxWraps, MaxRenders, Targets, GenFile
+CONSTANTS Content, Creators, WrapKinds, MaxWraps, MaxRenders, Targets, DecorSwitch, GenFile
 VARIABLES st, hist, bi
 vars == <<st, hist, bi>>
 
@@ -47,6 +47,12 @@ Ops ==
   \cup (IF bi > Len(Script) /\ NWraps < MaxWraps
         THEN {[op |-> "wrap", kind |-> k, over |-> [t |-> 1]] : k \in WrapKinds}
              \cup (IF Top > 0 THEN {[op |-> "wrap", kind |-> k, over |-> [w |-> Top]] : k \in WrapKinds} ELSE {})
+        ELSE {})
+  \* a text wrapper switched to another decoration by name (C14: any order of decorations)
+  \cup (IF bi > Len(Script) /\ NRenders < MaxRenders /\ NRenders > 0
+           /\ Cardinality({i \in DOMAIN hist : hist[i].op = "decor"}) < 2
+        THEN {[op |-> "decor", w |-> w, name |-> n, dec |-> [DefaultDec EXCEPT !.g.HOuter = n]] :
+                w \in {x \in DOMAIN st.wr : st.wr[x].kind = "text"}, n \in DecorSwitch}
         ELSE {})
   \cup (IF bi > Len(Script) /\ NRenders < MaxRenders
         THEN {[op |-> "render", w |-> w, entry |-> e] : w \in {x \in DOMAIN st.wr : st.wr[x].kind \in Targets}, e \in {"Render", "RenderTo"}}
